@@ -67,6 +67,10 @@ def subWalk (d : Dict) (n : Nat) : List Nat := levelsG (subsOf d) (d.length + 1)
 /-- `edL` of `lazyRefs::checkAnInvAttr`: the inverted entity and everything `subtypesIterator` reaches from it -/
 def candEntities (d : Dict) (over : Nat) : List Nat := over :: subWalk d over
 
+/-- the same `edL` over subtype lists given as such — `subs n` is the registry's `_subtypes` list of `n` as the generated schema
+    init code's `AddSubtype` calls built it (`candEntities d = candEntitiesBy (subsOf d) (d.length + 1)`) -/
+def candEntitiesBy (subs : Nat → List Nat) (fuel : Nat) (over : Nat) : List Nat := over :: levelsG subs fuel (subs over)
+
 def dedupBy {α} [DecidableEq α] : List α → List α
   | [] => []
   | a :: t => if a ∈ t then dedupBy t else a :: dedupBy t
